@@ -149,6 +149,11 @@ def shard(args):
             if r.chance(0.2):
                 ce = ce.upper() if r.chance(0.5) else ' ' + ce
             tag = coding
+            if coding == 'lzma' and r.chance(0.3):
+                # zero LZMA layers configured: the body must be handed on as it came (no more layers than configured)
+                cfg['LZMA_LAYERS'] = 0
+                expect = body
+                tag = 'lzma-layers0'
         elif kind == 'layers':
             nl = r.randint(2, 4)
             cods = [r.pick(['gzip', 'deflate-zlib', 'deflate-raw']) for _ in range(nl)]
